@@ -187,7 +187,7 @@ def c05(ctx):
 # =========================================================================== C06
 def c06(ctx):
     acc = Acc()
-    inv = ['InvSpecAgrees', 'InvBlank', 'EmitVector', 'EmitBlank']
+    inv = ['InvSpecAgrees', 'InvBlank', 'EmitVector', 'EmitBlank', 'EmitOptionsOnly', 'EmitOptionsFront']
     g_parse(ctx, acc, 'c06g1', 'MC_C06', cfg(['MaxDev = 1', 'MaskSet = {0, 1, 2, 3}'], inv), PARSE_KINDS_TREE)
     if ctx.quick:
         g_parse(ctx, acc, 'c06g2', 'MC_C06', cfg(['MaxDev = 2', 'MaskSet = {0}'], inv), PARSE_KINDS_TREE)
@@ -269,7 +269,11 @@ REFUSE_KINDS = {'refused-supported', 'accepted-unsupported', 'error-does-not-nam
 
 
 def sem_validate(ctx, acc, name, trace, kinds, timeout=3000, consts=''):
-    recs = [json.loads(l) for l in open(trace) if l.startswith('{')]
+    # records without a compile result (input rejected by the parser) carry nothing to validate here
+    lines = [l for l in open(trace) if l.startswith('{') and '"c":' in l]
+    with open(trace, 'w') as f:
+        f.writelines(lines)
+    recs = [json.loads(l) for l in lines]
     if not recs:
         raise ctx.t.ToolError('no compiled programs recorded for ' + name)
     st, verdicts = ctx.t.validate_trace(name, 'Trace_Sem', trace, timeout, consts=consts)
@@ -350,8 +354,8 @@ def c10(ctx):
     acc = Acc()
     gt_sem(ctx, acc, 'c10acts', 'acts', pick(ctx, 2, 3), ROUTE_KINDS)
     t_sem(ctx, acc, 'c10rand', ['--count', str(pick(ctx, 200, 3000)), '--seed', str(ctx.seed), '--size', '9', '--profile', 'actions'], ROUTE_KINDS)
-    t_sem(ctx, acc, 'c10chain', ['--count', str(pick(ctx, 6, 40)), '--seed', str(ctx.seed), '--profile', 'chain', '--size', str(pick(ctx, 120, 300))], ROUTE_KINDS, consts='CONSTANT MaxFiles = 8\nCONSTANT Static = FALSE\n')
-    return tv_result(acc, 'all multisets of up to %d actions from 12 action kinds (stdout/file x newline/NUL/format, file names from a pool of 3, print-file-fid, quit) as AND chain, OR chain and mixed; seeded random operator trees rich in actions; chains with up to %d distinct destinations; checked: framed iff NeedsFramed, plain => no table, injective table equal to the required targets, stream decodes into frames whose routed records equal FindSem outputs' % (pick(ctx, 2, 3), pick(ctx, 120, 300)), [])
+    t_sem(ctx, acc, 'c10chain', ['--count', str(pick(ctx, 4, 40)), '--seed', str(ctx.seed), '--profile', 'chain', '--size', '300'], ROUTE_KINDS, consts='CONSTANT MaxFiles = %d\nCONSTANT Static = FALSE\n' % pick(ctx, 3, 8))
+    return tv_result(acc, 'all multisets of up to %d actions from 12 action kinds (stdout/file x newline/NUL/format, file names from a pool of 3, print-file-fid, quit) as AND chain, OR chain and mixed; seeded random operator trees rich in actions; chains with up to 300 resources (destinations and matchers); checked: framed iff NeedsFramed, plain => no table, injective table equal to the required targets, stream decodes into frames whose routed records equal FindSem outputs' % pick(ctx, 2, 3), [])
 
 
 def c12(ctx):
@@ -366,6 +370,23 @@ def c07(ctx):
     c07_front(ctx, acc)
     # emitted constants: every numeric primary at its boundaries is executed on files at value-1, value, value+1
     gt_sem(ctx, acc, 'c07sem', 'numbers', 1, SEM_KINDS | {'threads-mismatch'})
+    # sizes whose byte count does not fit 64 bits: refused by the parser, or by compile, or exact -- never wrapped
+    over = '%s/c07over_in.ndjson' % ctx.work
+    texts = []
+    for unit, lim in (('', 1 << 55), ('b', 1 << 55), ('w', 1 << 63), ('k', 1 << 54), ('M', 1 << 44), ('G', 1 << 34), ('T', 1 << 24)):
+        for n in (lim - 1, lim, lim + 1, 2 * lim, (1 << 64) - 1):
+            for sign in ('', '+', '-'):
+                texts.append('-size %s%d%s' % (sign, n, unit))
+    with open(over, 'w') as f:
+        for t in texts:
+            f.write(json.dumps({'i': [ord(c) for c in t]}) + '\n')
+    for prof in ('dev', 'release'):
+        tr = '%s/c07over_%s.ndjson' % (ctx.work, prof)
+        ctx.t.record(['compile-text', '--from', over], tr, profile=prof)
+        if any('"c":' in l for l in open(tr)):
+            sem_validate(ctx, acc, 'c07over_' + prof, tr, SEM_KINDS)
+        else:
+            acc.add_stage('c07over_%s: all %d overflowing sizes refused by the parser' % (prof, len(texts)), {'states': 0, 'transitions': 0}, len(texts))
     t_sem(ctx, acc, 'c07rand', ['--count', str(pick(ctx, 150, 3000)), '--seed', str(ctx.seed), '--size', '3', '--profile', 'numeric'], SEM_KINDS | {'threads-mismatch'})
     r = result('model_checking', acc, True,
                'front end: 28 numeric slots (ids, counts, thread count, sizes with every unit, times with every unit) x {0, 1, 2^31, 2^32, 2^63, 2^64, floor(2^64/unit) for every unit, a 40-digit number, seeded random values} each -1/0/+1 x sign x 0/1/5 leading zeros, expected verdict and value from BigNat; back end: numeric primaries at their field boundaries compiled and executed by the TLA+ runtime model on files whose field is value-1, value, value+1 (per unit), thread count literal compared with the option',
@@ -458,11 +479,11 @@ def c11(ctx):
     if rp.returncode != 0 or 'Error' in rp.stderr:
         raise ctx.t.ToolError('tree generation failed: ' + rp.stderr[-400:])
     sem_validate(ctx, acc, 'c11chains', trace, SCOPE_KINDS, consts='CONSTANT MaxFiles = 14\nCONSTANT Static = FALSE\n', timeout=6000)
-    t_sem(ctx, acc, 'c11long', ['--count', str(pick(ctx, 8, 60)), '--seed', str(ctx.seed), '--profile', 'chain', '--size', str(pick(ctx, 100, 300))], SCOPE_KINDS,
-          consts='CONSTANT MaxFiles = 6\nCONSTANT Static = FALSE\n')
+    t_sem(ctx, acc, 'c11long', ['--count', str(pick(ctx, 4, 60)), '--seed', str(ctx.seed), '--profile', 'chain', '--size', '300'], SCOPE_KINDS,
+          consts='CONSTANT MaxFiles = %d\nCONSTANT Static = FALSE\n' % pick(ctx, 3, 6))
     t_sem(ctx, acc, 'c11short', ['--count', str(pick(ctx, 150, 2000)), '--seed', str(ctx.seed + 1), '--profile', 'chain', '--size', '10'], SCOPE_KINDS,
           consts='CONSTANT MaxFiles = 40\nCONSTANT Static = FALSE\n')
-    r = tv_result(acc, 'design: all request sequences up to %d over 15 requests (3 patterns equal up to case/wildcard x {cs, ci}, 2 files x 3 terminators, 3 stdout terminators) for both manager kinds with the invariants of Manager.tla; code: every request sequence up to 3 as an AND chain plus seeded chains with up to %d resources in random first-occurrence order with repeats, compiled by the real code; Scope.tla on the real let* (bound once, earlier binding, no capture), number of matcher-like and printer-like bindings (classified by behaviour) equal to Manager.tla for that tree, and execution on distinguishing files' % (mlen, pick(ctx, 100, 300)), [], level='model_checking')
+    r = tv_result(acc, 'design: all request sequences up to %d over 15 requests (3 patterns equal up to case/wildcard x {cs, ci}, 2 files x 3 terminators, 3 stdout terminators) for both manager kinds with the invariants of Manager.tla; code: every request sequence up to 3 as an AND chain plus seeded chains with up to %d resources in random first-occurrence order with repeats, compiled by the real code; Scope.tla on the real let* (bound once, earlier binding, no capture), number of matcher-like and printer-like bindings (classified by behaviour) equal to Manager.tla for that tree, and execution on distinguishing files' % (mlen, 300), [], level='model_checking')
     return r
 
 def c16(ctx):
@@ -711,4 +732,19 @@ def replay(ctx, path):
         acc.add_stage('replay', st, len(recs), [{'input': ctx.t.text_of(cps)}])
         acc.distinct = 2
         return result('model_checking', acc, False, 'replay of one saved case', [])
-    raise ctx.t.ToolError('replay of this failure shape is not supported yet')
+    if isinstance(fl.get('tree'), dict):
+        # a compiled program: the real code compiles the saved tree again, TLC judges it
+        inp = '%s/replay_tree.ndjson' % ctx.work
+        with open(inp, 'w') as f:
+            f.write(json.dumps({'t': fl['tree'], 'o': fl.get('o', {'depth': False, 'threads': []})}) + '\n')
+        import subprocess
+        binp = ctx.t.build('dev')
+        trace = '%s/replay_trace.ndjson' % ctx.work
+        with open(trace, 'w') as out:
+            subprocess.run([binp, 'compile-trees'], stdin=open(inp), stdout=out, check=True)
+        sem_validate(ctx, acc, 'replay', trace, set(fl.get('kinds', [])) | SEM_KINDS | ROUTE_KINDS | REFUSE_KINDS | SCOPE_KINDS | LEX_KINDS)
+        return tv_result(acc, 'replay of one saved tree', [])
+    if 'schedule' in fl:
+        print(fl['schedule'])
+        raise ctx.t.ToolError('a schedule counterexample is replayed by re-running the check (bin/check C16); the saved behaviour is printed above')
+    raise ctx.t.ToolError('replay of this failure shape is not supported')
